@@ -26,13 +26,15 @@ CHILD = {
     'awaitv': [['AWAIT', 'c1_vict'], ['D', 1]],
     'tick': [['D', 1], ['D', 1], ['D', 1], ['D', 1]],
     'forever': [['ETERNITY']],
+    # a child whose cleanup fails when it is closed: a failure that happens during the teardown of the scope
+    'finraise': [['FINALLY', [['D', 3]], [['RAISE', 'ValueError', 'cleanup']]]],
     # children that are still waiting for their start date when the block ends
     'after2': [['D', 1]],
     'at2': [['D', 1], ['PROBE', 'now']],
     'after1': [['D', 2]],
 }
 CHILD_OPTS = {'after2': {'after': 2}, 'at2': {'at': 2}, 'after1': {'after': 1}}
-VOLATILE = ('tick', 'forever', 'finspawn', 'd1', 'after2')
+VOLATILE = ('tick', 'forever', 'finspawn', 'd1', 'after2', 'finraise')
 BODIES = {
     'none': [],
     'd1': [['D', 1]],
@@ -81,7 +83,7 @@ def cases(tier):
     out = []
     singles = [k for k in CHILD if k not in ('vict', 'killer', 'awaitv')]
     pairs_a = ['d1', 'd2', 'f0', 'f1', 'f1b', 'f2', 'priv1', 'nest_fail', 'nest_slow', 'late1', 'waiter', 'finspawn', 'tick',
-               'after2', 'at2']
+               'after2', 'at2', 'finraise']
     tri = ['d2', 'f1', 'f1b', 'nest_fail', 'waiter', 'tick'] if thorough else ['d2', 'f1', 'f1b', 'tick']
     bodies = list(BODIES)
     kinds = list(KINDS)
